@@ -39,12 +39,21 @@ def run(ctx: Ctx) -> None:
                 'non-trivial = an unload of an imported module followed by a transpile of an importer; distinct = distinct (program, history)')
     ctx.prove([])
     rnd = ctx.rnd
-    nh = ctx.n(8, 400) * (3 if ctx.broken else 1)
+    nh = ctx.n(8, 100) * (3 if ctx.broken else 1)
     cases, raw, all_srcs = [], [], []
     scratch = scratch_cwd()
     for hidx in range(nh):
         mods = progen.gen_modules(rnd, rnd.randint(3, 5))
         srcs = {k: p.src for k, p in mods.items()}
+        if hidx == 0:
+            # a fixed pool first: an import chain of depth two (m2 -> m10 -> m1) whose modules call a function with an
+            # eleven-entry signature of the module they import - the directed histories below need both
+            from props.C06 import module_src, mod
+            chain = {0: [], 1: [0], 2: [1]}
+            srcs = {'proj.%s' % mod(i): module_src(i, chain[i], 0, 0) for i in range(3)}
+            # ... and a closure capturing four outer variables (the capture list must not depend on the hash seed)
+            srcs['proj.mcl'] = ('def outer(alpha: int, beta: int, gamma: int) -> int:\n\tdelta = alpha + 1\n\tdef inner(q: int) -> int:\n'
+                                '\t\treturn q + delta - gamma - beta - alpha\n\treturn inner(1)\n')
         names = list(srcs)
         imps = {i: sorted(names.index(x) for x in set(re.findall(r'^from (\S+) import', srcs[n], flags=re.M)) if x in names) for i, n in enumerate(names)}
         fresh = {}
@@ -153,7 +162,7 @@ def run(ctx: Ctx) -> None:
             os.chdir(pool_dir)
             try:
                 s5 = tsession.Session({})
-                target = names[-1]
+                target = names[max(range(len(names)), key=lambda i_: len(import_closure(imps, i_)))]      # the module with the longest import chain
                 for round_ in (1, 2):
                     ctx.evaluations += 1
                     ctx.count('directed:disk-reload')
@@ -165,7 +174,7 @@ def run(ctx: Ctx) -> None:
                     got5 = re.sub(r'"hash":"[0-9a-f]+"', '"hash":"dummy"', text)
                     if got5 != want:
                         ctx.violation('history-dependent-output', 'a file-backed module transpiled a second time in one session (tables restored from the cache) differs from a fresh in-memory session',
-                                      dict(sources=srcs, history=[('disk-transpile', len(names) - 1)] * round_, oracle_result=want[-300:], impl_result=got5[-300:]))
+                                      dict(sources=srcs, history=[('disk-transpile', names.index(target))] * round_, oracle_result=want[-300:], impl_result=got5[-300:]))
                         break
                     for n_ in reversed(names):
                         s5.unload(n_)
